@@ -51,6 +51,15 @@ pub const ROOTS: &[Root] = &[
     Root { name: "knights-tour", fen: "4k3/8/8/8/8/8/8/N3K2N w - - 0 1", class: 0 },
 ];
 
+/// Perpetual-check lines: (root, moves). After the moves the side to move has a single legal move, which is the
+/// move it played four plies earlier (what the engine's repetition filter looks for).
+pub const PERPETUALS: &[(&str, &str)] = &[
+    ("6k1/6p1/8/7Q/8/8/8/K7 w - - 0 1", "h5e8 g8h7 e8h5 h7g8 h5e8"),
+    ("6k1/6p1/8/7Q/8/8/8/K7 w - - 0 1", "h5e8 g8h7 e8h5 h7g8 h5e8 g8h7 e8h5 h7g8 h5e8"),
+    ("k7/8/8/8/7q/8/6P1/6K1 b - - 0 1", "h4e1 g1h2 e1h4 h2g1 h4e1"),
+    ("6k1/6p1/8/7Q/8/8/8/K7 w - - 0 1", "h5e8 g8h7 e8h5 h7g8"),
+];
+
 /// Positions the engine's FEN reader accepts although they cannot arise in play (pawns on the first and last
 /// ranks, in every combination of colour and side to move). The reference model refuses them, so nothing is judged
 /// about the moves; they only drive the unchecked fast paths (C15).
